@@ -294,12 +294,11 @@ func (e *Env) havocLoc(ctx *SpecCtx, x *SExpr, st *State) {
 		switch b := base.(type) {
 		case *Slice:
 			et := b.Typ.Underlying().(*types.Slice).Elem()
-			for _, l := range e.leavesOf(et) {
-				name := "E!" + typeKey(et) + "!" + l.Path
-				srt := heapSort("E", l.Sort, "")
-				arr := e.heapGet(st, name, srt)
-				inner := e.fresh("mod_elems", "(Array Int "+l.Sort+")")
-				e.heapSet(st, name, srt, e.maybeName(mkStore(arr, b.Arr, inner), srt))
+			names, sorts, leaves := e.elemArrays(et)
+			for i, name := range names {
+				arr := e.heapGet(st, name, sorts[i])
+				inner := e.fresh("mod_elems", "(Array Int "+leaves[i].Sort+")")
+				e.heapSet(st, name, sorts[i], e.maybeName(mkStore(arr, b.Arr, inner), sorts[i]))
 			}
 		case *MapV:
 			mt := b.Typ.Underlying().(*types.Map)
@@ -627,6 +626,13 @@ func (e *Env) builtin(fr *Frame, b *ssa.Builtin, c *ssa.CallCommon, args []Value
 
 // elemArrays returns the element heap arrays (name, sort, leaf) for an element type.
 func (e *Env) elemArrays(et types.Type) (names, sorts []string, leaves []Leaf) {
+	if srt, ctor, _, ok := e.packed(et); ok {
+		var zs []string
+		for _, l := range e.leavesOf(et) {
+			zs = append(zs, e.zeroLeaf(l))
+		}
+		return []string{"E!" + typeKey(et) + "!"}, []string{heapSort("E", srt, "")}, []Leaf{{Path: "", Sort: srt, Typ: et, Zero: sx(ctor, zs...)}}
+	}
 	for _, l := range e.leavesOf(et) {
 		names = append(names, "E!"+typeKey(et)+"!"+l.Path)
 		sorts = append(sorts, heapSort("E", l.Sort, ""))
@@ -651,6 +657,15 @@ func (e *Env) appendOp(fr *Frame, s *Slice, more Value, st *State) Value {
 	n := m.Len
 	newLen := e.maybeName(sx("+", s.Len, n), sInt)
 	fits := e.maybeName(sx("<=", newLen, s.Cap), sBool)
+	// if the capacity provably suffices (the make(T, 0, n) + append idiom), model only the
+	// in-place case; if it provably does not, only the reallocation
+	if e.quantDepth == 0 && !fr.pure {
+		if e.quickValid(mkImp(st.pc, fits)) {
+			fits = tTrue
+		} else if e.quickValid(mkImp(st.pc, mkNot(fits))) {
+			fits = tFalse
+		}
+	}
 	// case 1: in place; case 2: reallocation
 	r := e.alloc(st)
 	newCap := e.fresh("appcap", sInt)
